@@ -694,9 +694,10 @@ func TestVerifC16(t *testing.T) {
 		world []c16Op // executed on the primary before every history (operations like the others)
 	}{
 		{"entities", c16EntityOps(), entityDepth, nil},
+		// before the two big families: in the thorough tier those end on the wall budget
+		{"deletions", c16DeletionOps(), deletionDepth, []c16Op{c16DeletionWorld()}},
 		{"mappings", c16MappingOps(), mappingDepth, nil},
 		{"union", append(c16EntityOps(), c16MappingOps()...), mixedDepth, nil},
-		{"deletions", c16DeletionOps(), deletionDepth, []c16Op{c16DeletionWorld()}},
 	}
 	for _, p := range parts {
 		ex := &c16Explorer{part: p.name, ops: append(append([]c16Op{}, p.ops...), p.world...), rep: rep, sigSeen: map[string][]string{}}
